@@ -49,7 +49,7 @@ func init() {
 		case "C02":
 			mods = []string{"Verif.Properties.C02"}
 		case "C03":
-			mods = []string{"Verif.Properties.C03"}
+			mods = []string{"Verif.Properties.C03", "Verif.Properties.C03Phases"}
 			factsOK = true
 		case "C04":
 			mods = []string{"Verif.Properties.C01", "Verif.Properties.C02", "Verif.Properties.C03"}
